@@ -59,18 +59,24 @@ def output_order(sc, res):
             yield st
             for g in st.get('steps') or []:
                 yield from steps(g)
-    prog = next((st['prog'] for st in steps(sc['steps']) if st.get('do') == 'run' and st.get('as') == res), None)
-    if not prog:
-        return ''
-    j = prog['out']
-    while True:
-        nd = prog['nodes'][j]
-        if nd['op'] in ('reshuffle', 'repartition', 'reshard'):
-            return 'read-order'
-        if nd['op'] in PIPELINED and nd['in']:
-            j = nd['in'][0]
-            continue
-        return 'reproducible' if nd['op'] != 'arg' else 'argument'
+    for _ in range(8):   # follow Result arguments into the programs that made them
+        st0 = next((st for st in steps(sc['steps']) if st.get('do') == 'run' and st.get('as') == res), None)
+        if not st0:
+            return ''
+        prog = st0['prog']
+        j = prog['out']
+        while True:
+            nd = prog['nodes'][j]
+            if nd['op'] in ('reshuffle', 'repartition', 'reshard'):
+                return 'read-order'
+            if nd['op'] in PIPELINED and nd['in']:
+                j = nd['in'][0]
+                continue
+            break
+        if nd['op'] != 'arg':
+            return 'reproducible'
+        res = st0['args'][nd.get('arg', 0)]
+    return 'reproducible'
 
 
 def kills_step(plans):
@@ -310,8 +316,15 @@ def run(tier, replay=None):
         for b in v['bad']:
             sc = byid[b['id']]
             rec = rb[b['id']]
-            kl = [(k['method'], k['phase']) for k in rec.get('killlog', []) if k.get('killed')]
             ev = next((e for e in rec['events'] if e.get('seq') == b['seq']), {})
+            # the kills armed for the failing step (the kills step right before it) that were carried out
+            done = {(k['method'], k['ordinal'], k['phase']) for k in rec.get('killlog', []) if k.get('killed')}
+            armed = []
+            if isinstance(b['seq'], int) and 2 <= b['seq'] <= len(sc['steps']) and sc['steps'][b['seq'] - 2].get('do') == 'kills':
+                armed = sc['steps'][b['seq'] - 2].get('kills') or []
+            kl = [(k['method'], k['phase']) for k in armed if (k['method'], k['ordinal'], k['phase']) in done]
+            if not armed:
+                kl = [(k['method'], k['phase']) for k in rec.get('killlog', []) if k.get('killed')]
             chk.violation({'what': b['what'], 'do': b['do'], 'kills': json.dumps(sorted(set(kl))),
                            'output_order': output_order(sc, ev.get('res', '')) if b['do'] == 'scan' else ''},
                           '%s (scenario %s, seq %s, %s; machines killed at %s): %s' % (b['what'], b['id'], b['seq'], b['do'], kl, str(b['detail'])[:300]),
